@@ -1540,11 +1540,11 @@ class SymEx:
                 vals = [self.snap(st, self.eval(st, a)) for a in e.k]
                 r = ('hcall', base) + tuple(vals)
                 self.effect(st, 'hcall', name=base, args=vals, where=e.where(), node=e.cid,
-                            targs=tuple(f.targs) if f else ())
+                            targs=tuple(f.targs) if f else (), callee=e.a.get('id'))
                 # non-const reference arguments may be written
                 if f is not None:
                     for p, a in zip(f.params, e.k):
-                        if is_mut_ref(p.type):
+                        if is_mut_ref(p.type) and not is_stream_type(p.type):
                             lv = self.eval_lv(st, a)
                             if lv is not None:
                                 self.write(st, lv, ('hout', base, p.name, self.fresh('o')))
